@@ -20,13 +20,20 @@ for f in sorted(glob.glob(H + "/evidence/C*.json")):
         out.append("| %s | %s | %s | %s | %s |" % (e["property_id"], m["name"], exp, m["result"], (m.get("detail") or "").replace("|", "\\|")[:140]))
 out.append("\n%d mutants, %d behave as required.\n" % (tot, fired))
 out.append("### 10.2 Independently seeded changes (written by sub-agents that saw only the property text)\n")
-out.append("| seed | property | confirmed (suite passes / demo fails with / passes without) | checks that fire | note |")
-out.append("|---|---|---|---|---|")
+out.append("| seed | property | confirmed (suite passes / demo fails with / passes without) | checks that fire | caught | rule | note |")
+out.append("|---|---|---|---|---|---|---|")
+n = first = later = missed = 0
 for f in sorted(glob.glob(H + "/seeded/*/meta.json")):
     m = json.load(open(f))
     c = m["confirmed"]
+    n += 1
+    st = m.get("caught", "")
+    first += st == "first run"
+    later += st.startswith("after")
+    missed += st == "missed"
     conf = "%s / %s / %s" % ("yes" if c["existing_suite_nonok_lines"] == 0 else "NO", "yes" if c["demo_fails_with_change"] else "NO", "yes" if c["demo_passes_without_change"] else "NO")
-    out.append("| %s | %s | %s | %s | %s |" % (m["seed"], m["breaks_property"], conf, " ".join(m["checks_that_fire"]) or "none", m.get("note", "")))
+    out.append("| %s | %s | %s | %s | %s | %s | %s |" % (m["seed"], m["breaks_property"], conf, " ".join(m["checks_that_fire"]) or "none", st, m.get("rule", ""), m.get("note", "")))
+out.append("\n%d seeded changes: %d caught by the checks as they stood when the change arrived, %d caught after a rule was added or tightened in response, %d not caught (reasons in the note column).\n" % (n, first, later, missed))
 s = open(H + "/DESIGN.md").read()
 s = re.sub(r"<!-- BEGIN GENERATED TABLES -->.*<!-- END GENERATED TABLES -->", "<!-- BEGIN GENERATED TABLES -->\n" + "\n".join(out).replace("\\", "\\\\") + "\n<!-- END GENERATED TABLES -->", s, flags=re.S)
 open(H + "/DESIGN.md", "w").write(s)
